@@ -219,6 +219,17 @@ def js_fingerprint(fn):
                 preds.add((js_name(r), FLIPOP.get(op, op), num(l['value'])))
             else:
                 preds.add((js_name(l), op, js_name(r)))
+    # x.includes(y): the ES2015 spelling of x.indexOf(y) >= 0 (polarity is not part of a predicate, see norm_pred of C18)
+    for n in jwalk(fn):
+        if n['type'] == 'CallExpression' and n['callee']['type'] == 'MemberExpression' and not n['callee']['computed'] \
+                and n['callee']['property'].get('name') == 'includes' and len(n['arguments']) == 1:
+            obj, arg = n['callee']['object'], n['arguments'][0]
+            if obj['type'] == 'ArrayExpression' and all(x and x['type'] == 'Literal' for x in obj['elements']):
+                preds.add((js_name(arg), 'In', tuple(sorted((num(x['value']) for x in obj['elements']), key=str))))
+            elif arg['type'] == 'Literal':
+                preds.add((js_name(obj), 'Contains', arg.get('value')))
+            else:
+                preds.add((js_name(obj), 'Contains', js_name(arg)))
     for n in jwalk(fn):
         if n['type'] == 'Literal' and isinstance(n.get('value'), (int, float)) and not isinstance(n.get('value'), bool) and id(n) not in skip:
             consts.append(float(n['value']))
